@@ -4,19 +4,30 @@ corr   : the Lean lexer model (MakoModel/Lexer/Model.lean, driver op `lex`) agai
          `mako.lexer.Lexer`:
            * per-matcher streams - every `match_*` method, `parse_until_text`, the string-literal regex and the
              magic-comment regex on exhaustive enumerations over an alphabet chosen for that regex, with the
-             cursor at offset 0, after a newline and mid-line;
+             cursor at offset 0, after a newline, mid-line and after text+newline (sizes grow to the thorough ones
+             in the quick tier too when the regex literals of mako/lexer.py changed - fingerprint);
            * the Unicode classes `\\w`, `\\s`, `str.isspace` on every scalar value;
            * whole-lexer streams: (a) every concatenation of <= k tokens of a 26-token alphabet,
-             (b) seeded long documents with ground truth, (c) malformed documents / token soup.
+             (b) randomly generated long documents with ground truth - also with the preprocessors handed to the
+             real lexer and the model lexing the preprocessed text -, (c) malformed documents / token soup.
          Compared: the node list (class, lineno, pos, tag depth, payload) or exception class + (lineno, pos) +
          kind; when a node *constructor* raises (Python syntax, tag validation - outside the model) the nodes
          created so far must be a prefix of the model's ("prefix agreement").
-oracle : no Lean involved.  (A) spans reconstructed from the (lineno, pos) of consecutive nodes of the real
-         parse tree must tile the source: every node's own raw text is at its reported position and the rest of
-         its span is only closing tags / backslash-newlines; (B) `Template(s).render_unicode()` must equal the
-         input for inert strings, and the generator's ground truth for documents; (C) exceptions escaping
-         `Lexer.parse` must be Mako exceptions; (D) timing *test* of `Lexer(s).parse()` on adversarial
-         repetition families (CPU time, per-case budget, subprocess).
+oracle : no Lean involved.
+         (A) tiling: spans reconstructed from the (lineno, pos) of consecutive nodes of the real parse tree must
+             tile the source - every node's own raw text is at its reported position and the rest of its span is
+             only closing tags / backslash-newlines;
+         (B) rendering: `Template(s).render_unicode()` equals the input for inert strings, the generator's ground
+             truth for documents and the documented output for the canonical one-directive documents;
+         (B') construction paths: the same along string+coding line / bytes / file / file+module_directory /
+             reused module file in utf-8, latin-1, cp1251, koi8-r;
+         (B") preprocessors: `Lexer(src, preprocessor=p)`, `Template(src, preprocessor=p)` and a file-based
+             `TemplateLookup(preprocessor=p)` equal lexing / rendering `p(src)`;
+         (C) exceptions escaping `Lexer.parse` must be Mako exceptions;
+         (D) timing *test* of `Lexer(s).parse()` on adversarial repetition families (CPU time of a child process,
+             per-point budget);
+         every implementation call inside a stream runs under a wall-clock limit, so a regex gone exponential is
+         reported (site `lexer-does-not-finish`) instead of hanging the check.
 """
 from __future__ import annotations
 
@@ -75,8 +86,8 @@ REGEN = ["Unicode", "LexerCfg"]
 RULE = ("(a) all concatenations of <=k tokens from {<% %> </% ${ } % %% ## \\ LF CRLF CR \" ' | > / <%text> </%text> "
         "<%doc> </%doc> <%def name=\"f()\"> </%def> space a e-acute} (quick k=3 + a 1/8 sample of k=4; thorough k<=5 "
         "exhaustive); per-matcher exhaustive enumerations over regex-specific alphabets at 4 cursor contexts (offset 0, "
-        "after LF, mid-line, after text+LF); 35 canonical one-directive documents; "
-        "(b) seeded documents of 8-60 segments interleaving Unicode text runs (incl. stray % # $ < \\ { } |, CR, LF, "
+        "after LF, mid-line, after text+LF); @NCANON@ canonical one-directive documents; "
+        "(b) randomly generated documents (PRNG from the run's seed) of 8-60 segments interleaving Unicode text runs (incl. stray % # $ < \\ { } |, CR, LF, "
         "CRLF, NBSP, U+2028, astral) with well-formed directives (expression, control lines, ## comment, %% escape, "
         "backslash-newline, <%doc>, <%text>, <% %>, <%! %>, def+call) at line start / mid-line / after a "
         "continuation / at EOF / after CRLF, each with its ground-truth output; (c) token-level mutations of such "
@@ -97,6 +108,10 @@ ASSUMPTIONS = [
     "Python-syntax checks and tag-class validation done by node constructors are outside the lexer model; "
     "on such errors only prefix agreement is required",
     "lone surrogates are never generated",
+    "a file that starts with U+FEFF starts with the UTF-8 byte order mark, which reading a template file strips "
+    "(the file routes of the preprocessor oracle take their reference from the text without it)",
+    "preprocessor and construction-path oracles are differential (the same source through two routes of the "
+    "implementation); exceptions are compared by class, (lineno, pos) and message without the file name",
 ]
 TRUSTED_EXTRA = [
     "C01: every regex of mako/lexer.py is transcribed by hand into a deterministic scanner (Lexer/Model.lean); "
@@ -1209,6 +1224,9 @@ CANONICAL = [
 ]
 
 
+RULE = RULE.replace("@NCANON@", str(len(CANONICAL)))
+
+
 def canonical_oracle():
     """-> list of (site, source, detail) for canonical documents that do not render as documented"""
     bad = []
@@ -1222,18 +1240,21 @@ def canonical_oracle():
 
 
 def canonical_paths_oracle():
-    """every canonical document along every construction path in every encoding -> [(site, case, detail)]"""
+    """every canonical document (those that do not start with a coding comment of their own) along every
+    construction path in every encoding -> ([(site, case, detail)], number of renders compared)"""
     bad = []
+    n = [0]
 
     def run(tmp):
         for src, want in CANONICAL:
             if re.match(r"#.*coding[:=]", src):
                 continue
             for enc in ENCODINGS:
+                n[0] += len(PATHS)
                 for site, detail, path, src2 in paths_oracle(doc_oracle, src, want, tmp, enc):
                     bad.append((site, {"input": src2, "path": path, "encoding": enc}, detail))
     with_tmp(run)
-    return bad
+    return bad, n[0]
 
 
 def canonical_preprocessor_oracle():
@@ -1747,11 +1768,11 @@ def run(ctx):
                 VIOL.insert(0, (site, case, detail, "oracle.preprocessor"))
             st_c["cases"] += len(CANONICAL) * len(PREPROCESSORS) * 4
             ctx.branch("preprocessor:canonical", len(CANONICAL) * len(PREPROCESSORS) * 4)
-            cp = canonical_paths_oracle()
+            cp, n_cp = canonical_paths_oracle()
             for site, case, detail in reversed(cp[:12]):
                 VIOL.insert(0, (site, case, detail, "oracle.render-paths"))
-            st_c["cases"] += len(CANONICAL) * len(ENCODINGS) * len(PATHS)
-            ctx.branch("paths:canonical", len(CANONICAL) * len(ENCODINGS) * len(PATHS))
+            st_c["cases"] += n_cp
+            ctx.branch("paths:canonical", n_cp)
             corpus = ["a</%b", "x\n% foo\rbar", "<%text></%text></%text>", "\x0b%%", "<%a:b:c/>"] + [c for c, _ in CANONICAL]
             r = check_batch(corpus, {"render": True})
             merge(ctx, "corr.lexer.corpus", "corr", r)
